@@ -38,6 +38,20 @@ class ObjRef:
         return hash(self.oid)
 
 
+class View:
+    """`table[k0]...[kn]` on an object of a class declared indexable: a partial address, not an object.
+    Method calls / stores through it are desugared to contracts `cell<n>_<method>(obj, k0..kn, args)` of the class."""
+
+    __slots__ = ("obj", "keys")
+
+    def __init__(self, obj, keys):
+        self.obj = obj
+        self.keys = tuple(keys)
+
+    def __repr__(self):
+        return f"View({self.obj!r}, {self.keys!r})"
+
+
 class EnumVal:
     __slots__ = ("enum", "member")
 
